@@ -20,14 +20,17 @@ CLAIMED = {
   "does (index, range, length prefix, growth allowance), the notification broadcast fixes exactly the ancestors' unsized_size and offset "
   "tables and shifts every later pointer (C01_general_notify_inside), and every observation - live accessors whatever the lists remember, "
   "raw bytes, fresh parse, re-borrow - equals the owned model (C01_general_step_refines / _run_refines / _observable / _reborrow / "
-  "_descent; non-vacuity by a vm_compute'd nested history). The flat-shape theorems of the first round remain as the special case. "
-  "Operations ON a list of unsized elements itself (insert / remove / clear of elements), Map / Set / String views, whole-value "
-  "replacement and initializers are tied by correspondence: 1.5k (quick) / 40k (thorough) generated histories on 21 Rust shapes nested to "
+  "_descent; non-vacuity by a vm_compute'd nested history). The same for the FULL operation set (C01_all_ops_step_refines / "
+  "_run_refines): in-place stores, RemainingBytes::set_len, and the element-level operations of lists of unsized elements - insert of "
+  "default-initialised elements, remove_range, clear - with their offset-table surgery. C01_dispatcher_tie proves that the dispatcher the "
+  "extracted runner executes returns what descent + operation return. The flat-shape theorems of the first round remain as the special "
+  "case. Keyed insertion through the Map / Set / UnsizedMap views, String, non-default initializers, whole-value replacement and enums are "
+  "tied by correspondence: 1.5k (quick) / 40k (thorough) generated histories on 21 Rust shapes nested to "
   "depth 3 run through the real ExclusiveWrapper API and the extracted machine (0 disagreements), judged against an independent "
   "plain-Vec/BTreeMap oracle in Python.",
-  "PARTIAL (stated in Properties/C01.v): element-level operations of UnsizedList / UnsizedMap (insert, remove, clear of elements, with "
-  "their offset-table surgery) are in the machine and the correspondence but have no refinement theorem yet; enums are in the encode/parse "
-  "universe (C04/C05) but neither in the operations harness nor in the refinement. Found and fixed D7 (stale inner pointer not "
+  "PARTIAL (stated in Properties/C01.v): the keyed views (Map / Set / UnsizedMap: binary search then insert), UnsizedString, non-default "
+  "initializers and whole-value replacement (set_from_owned / set_from_init) are in the machine and the correspondence but have no "
+  "refinement theorem; enums are in the encode/parse universe (C04/C05) but neither in the operations harness nor in the refinement. Found and fixed D7 (stale inner pointer not "
   "shifted), D18 (empty trailing RemainingBytes at full capacity: found while proving the flat pointer assertions) and D26 (a STALE "
   "recorded inner pointer took part in check_pointers and could be shifted out of the allocation: found while stating the general "
   "layout invariant); known finding D16 (failing initializer after the resize)."),
@@ -40,8 +43,8 @@ CLAIMED = {
   "compares the account bytes with from_owned(value read back) byte for byte and the reported length with byte_size, and the extracted "
   "machine must agree on the checksum of the bytes; histories are biased to lists / maps of unsized elements where unsized_size, the "
   "offset table and the trailing length copy live.",
-  "PARTIAL: for element-level operations of lists / maps of unsized elements (insert / remove / clear of elements), enums, whole-value "
-  "replacement and initializers the canonical-form claim rests on the correspondence (machine = implementation on every generated "
+  "Also for the full operation set incl. element-level insert / remove / clear of lists of unsized elements (C02_all_ops_canonical_after_any_history). "
+  "PARTIAL: for keyed map / set insertion, enums, whole-value replacement and non-default initializers the canonical-form claim rests on the correspondence (machine = implementation on every generated "
   "history, bytes = from_owned(value))."),
  "C03": (
   "Coq theorems (coq/Properties/C03.v, axiom-free). ALL shapes: no operation changes the size of the allocation - every write of "
@@ -55,8 +58,8 @@ CLAIMED = {
   "canaries on the other side, each case in a forked child: SIGSEGV and canary damage are observations; 40 accessor-swap scenarios on two "
   "buffers; allowance-scale histories that shift a stale inner pointer (D26).",
   "PARTIAL (DESIGN section 7): the theorems are about the byte-level contract (which offsets are touched); that the Rust pointer "
-  "arithmetic realises those offsets is the correspondence plus guard pages. Element-level operations of lists of unsized elements: "
-  "allocation invariance proved, absence of Fault by correspondence. Found and fixed D18 and D26."),
+  "arithmetic realises those offsets is the correspondence plus guard pages. The full operation set incl. element-level operations of lists of "
+  "unsized elements is covered by C03_all_ops_no_fault_in_any_history. Found and fixed D18 and D26."),
  "C06": (
   "Coq theorems (coq/Properties/C06.v, axiom-free), every enum-free shape, list operations at any nesting depth: every failure - index, "
   "range, length prefix, growth beyond the allowance, growth refused by the data access - is returned with the owned model's code before "
